@@ -192,6 +192,7 @@ class Ctx:
         self.exhaustive = False
         self.failures = []      # (clause, dev, event, case)
         self.drift = []
+        self.ext = []
         self.extra = {}
         self.findings = load_findings()
         self.is_replay = False
@@ -226,6 +227,8 @@ class Ctx:
                 case = cases[ev["cid"]]
             if clause.startswith("DRIFT."):
                 self.drift.append((clause, ev, case))
+            elif clause.startswith("EXT."):
+                self.ext.append(clause)
             else:
                 self.failures.append((clause, dev, ev, case))
         return fails, stats
@@ -262,6 +265,8 @@ class Ctx:
             print(f"  clause {clause}: {len(lst)} failing events; first: "
                   f"{json.dumps(ev, default=str)[:600]}")
             rc = 1
+        if self.ext:
+            print(f"SPEC-COVERAGE (not a verdict) {sorted(self.ext)}", file=sys.stderr)
         if self.drift:
             kinds = {}
             for c, ev, case in self.drift:
@@ -277,6 +282,7 @@ class Ctx:
             "model_runs": self.model_runs,
             "known_findings_hit": sorted(hit),
             "model_drift": len(self.drift),
+            "spec_coverage_mismatches": sorted(self.ext),
             "failed_clauses": {c: len(l) for c, l in viol.items()},
         }
         cov.update(self.extra)
